@@ -21,7 +21,10 @@ def mk_classes(world, module=None):
         if k == "array":
             shape = tuple(slice(None) if d is None else d for d in f[3])
             return SC[f[2]][shape if len(shape) > 1 else shape[0]]
-        if k == "nested": return classes[f[2]]
+        if k == "nested":
+            if len(f) > 3 and f[3]:      # the holder declares its own default for the nested object
+                return xo.Field(classes[f[2]]._XoStruct, default=dict(f[3]["default"]))
+            return classes[f[2]]
         if k == "ref": return xo.Ref(classes[f[2]])
         raise ValueError(k)
     classes = {}
@@ -152,6 +155,8 @@ def run_case(c, module=None):
                 for pn in op.get("via", []):
                     tgt = getattr(tgt, pn)
                 tgt.move(_buffer=(ctxs[0].new_buffer(64) if op["buf"].startswith("N") else bufs[op["buf"]]))
+            elif o == "grow":
+                b = bufs[op["buf"]]; b.grow(max(int(b.capacity), 64))
             elif o == "raw_alloc":        # somebody else's allocation in the same buffer
                 raw = res.setdefault("_raw", {})
                 raw[op["name"]] = (op["buf"], int(bufs[op["buf"]].allocate(op["size"])), op["size"])
